@@ -1,5 +1,6 @@
 import MpVerif.C20.ModelGraph
 import MpVerif.C20.Lemmas
+import MpVerif.C20.LemmasExport
 /-!
 # C20 — The exported reformulation graph is well-formed and complete
 
@@ -241,5 +242,44 @@ def exD : Delivered := ⟨1, 1, 1, 0, 1, 1, [⟨cl!"_linrange", 3, cl!"c"⟩]⟩
 example : checkGraph (exG 0) exD = true := by decide
 example : checkGraph (exG 1) exD = false := by decide
 example : checkGraph ((exG 0).erase (.conStatus cl!"_linrange" 0 cl!"c" false false true)) exD = false := by decide
+
+/-! ## (b) the lazy link-export protocol -/
+
+/-- **The completeness assertion in `FinishModelInput` cannot fail**: after `FinishExportingLinkEntries`,
+    for every sequence of `AddEntry` calls on the three link kinds, `AllEntriesExported()` holds
+    (every registered range – hence every registered entry index – has been exported). -/
+theorem C20_export_all_ranges_exported (ops : List XOp) :
+    allEntriesExported (xrun {} (ops ++ [.finish])) = true := by
+  have h := xrun_inv ops {} (by simp)
+  simp only [xrun, List.foldl_append, List.foldl_cons, List.foldl_nil, xstep, allEntriesExported, beq_iff_eq]
+  have := iExp_le_exportRemaining (xrun {} ops)
+  simp only [xrun] at h this
+  simp only [exportRemaining] at this ⊢
+  omega
+
+/- Full-strength statement (DESIGN `C20_export_complete`), NOT true of the code as it exists:
+
+     theorem C20_export_complete (ops : List XOp) :
+         ∀ x ∈ (xrun {} (ops ++ [.finish])).out,
+           (x.src, x.dst) = extentOf (xrun {} (ops ++ [.finish])) x.link x.entry
+
+   ("every registered entry was exported *with its final extent*").  `CopyLink::AddEntry` and
+   `Many2ManyLink::AddEntry` extend an already exported entry in place (A16).  Witness: -/
+
+/-- two objectives, the first one non-linear (its One2Many links are registered between the two
+    `CopyLink::AddEntry` calls): the record for the objectives' CopyLink entry says `0..0` but the
+    entry finally covers `0..1`. -/
+def staleOps : List XOp :=
+  [.add .copy (⟨cl!"src_vars()", 0, 3⟩, ⟨cl!"dest_vars()", 0, 3⟩),
+   .add .copy (⟨cl!"src_objs()", 0, 1⟩, ⟨cl!"dest_objs()", 0, 1⟩),
+   .add .one2many (⟨cl!"src_objs()", 0, 1⟩, ⟨cl!"dest_vars()", 3, 4⟩),
+   .add .copy (⟨cl!"src_objs()", 1, 2⟩, ⟨cl!"dest_objs()", 1, 2⟩),
+   .finish]
+
+theorem C20_counterexample_stale_link :
+    let s := xrun {} staleOps
+    s.out.map (fun x => (x.link, x.entry, x.src.beg, x.src.end_)) =
+      [(.copy, 0, 0, 3), (.copy, 1, 0, 1), (.one2many, 0, 0, 1)] ∧
+    (extentOf s .copy 1).1.end_ = 2 ∧ s.late = true ∧ allEntriesExported s = true := by decide
 
 end MpVerif.C20
